@@ -8,7 +8,8 @@ from ..seams import CLOCK, F, T, reset_world, LIB_ERRORS
 from ..core import real
 from ..oracle import (ACCEPT, REJECT, EITHER, slack3, slack_tripped_int, validsig,
                       ed_verify, pubkey_of_seed, as_key_arg, PREFIXES, DECORATIONS, SUFFIXES,
-                      LOCK_FORMS, LIMITS, in_form, code_of, WRAPS, wrap_lock)
+                      LOCK_FORMS, LIMITS, in_form, code_of, WRAPS, wrap_lock,
+                      ARG_STYLES, styled_flags, styled_sigfields, maybe_twice)
 
 PID = 'C14'
 ISOLATE = True      # one forked process per run: nothing a run does to process-global
@@ -145,7 +146,8 @@ def gen_step(rng, cell, clocks, vname, at_us, thr, fault_free):
             'keys': rng.choice(['bytes', 'bytes', 'object']), 'prefix': rng.choice(PREFIXES),
             'cert_as': rng.choice(['bytes', 'object']), 'decor': rng.choice(DECORATIONS), 'suffix': rng.choice(SUFFIXES),
             'form': rng.choice(LOCK_FORMS), 'limits': rng.below(len(LIMITS)),
-            'wrap': rng.choice(WRAPS),
+            'wrap': rng.choice(WRAPS), 'style': rng.choice(ARG_STYLES),
+            'twice': rng.choice(['', '', '', 'build', 'validate', 'build+validate']),
             't': t, 'thr': thr, 'chain': chain, 'signer': dn(pre, ln),
             'allowed': rng.choice(['00', '00', '01', '03', '80', 'c1']), 'flag': '00',
             'sigfields': {'sigfield%d' % k: rng.bytes(rng.choice([0, 1, 16, 64, 64, 255, 256, 300])).hex()
@@ -370,12 +372,23 @@ def execute(plan, run):
             packed_arg = packed
         CLOCK.latency_us = 0
         run.cur_step = i
+        style = step.get('style', 'plain')
+        tw_b = 'build' in step.get('twice', '')
+        sf_arg = styled_sigfields(sf, style)
+        if style != 'plain':
+            run.probe('argument_style_' + style)
+        if step.get('twice'):
+            run.probe('called_twice_' + step['twice'])
         if step['witness'] == 'single':
-            w = real('make_delegate_key_witness', T.make_delegate_key_witness,
-                     signer, packed_arg[-1], sf, step['flag'], step.get('prefix', ''))
+            w = real('make_delegate_key_witness', maybe_twice, tw_b, T.make_delegate_key_witness,
+                     signer, packed_arg[-1], sf_arg, styled_flags(step['flag'], style),
+                     step.get('prefix', ''))
         else:
-            w = real('make_delegate_key_chain_witness', T.make_delegate_key_chain_witness,
-                     signer, list(reversed(packed_arg)), sf, step['flag'], step.get('prefix', ''))
+            chain_arg = list(reversed(packed_arg))
+            w = real('make_delegate_key_chain_witness', maybe_twice, tw_b,
+                     T.make_delegate_key_chain_witness,
+                     signer, chain_arg, sf_arg, styled_flags(step['flag'], style),
+                     step.get('prefix', ''))
         _, stk, _ = real('run_script(witness)', F.run_script, w.bytes)
         items = stk.list()
         # structural expectation on the builder's own output
@@ -393,9 +406,11 @@ def execute(plan, run):
             items = attack(items, atk, step, keys, run)
             src = '\n'.join('push x' + it.hex() for it in items)
             w = T.Script.from_src(src)
-        lock = real('make_delegate_key_lock', T.make_delegate_key_lock if step['lock'] == 'single'
+        lock = real('make_delegate_key_lock', maybe_twice, tw_b,
+                    T.make_delegate_key_lock if step['lock'] == 'single'
                     else T.make_delegate_key_chain_lock,
-                    as_key_arg('pub', root_pk, step.get('keys', 'bytes')), step['allowed'])
+                    as_key_arg('pub', root_pk, step.get('keys', 'bytes')),
+                    styled_flags(step['allowed'], style))
         if step.get('wrap', 'none') != 'none':
             # the lock is committed to by a wrapper; the reveal is appended to the witness
             run.probe('lock_wrapped_' + step['wrap'])
@@ -409,7 +424,7 @@ def execute(plan, run):
             w = T.Script('# witness + return #', w.bytes + T.compile_script(step['suffix']))
             items = items + ([b'\xff'] if step['suffix'].startswith('true') else
                              [b'\x00'] if step['suffix'].startswith('false') else [])
-        cache_in = dict(sf) if step.get('default_t') else {**sf, 'timestamp': step['t']}
+        cache_in = dict(sf_arg) if step.get('default_t') else {**sf_arg, 'timestamp': step['t']}
         lockf = real('lock in form ' + step.get('form', 'object'), in_form, lock,
                      step.get('form', 'object'))
         lim = LIMITS[step.get('limits', 0)]
@@ -418,6 +433,18 @@ def execute(plan, run):
         if lim:
             run.probe('explicit_limits')
         CLOCK.latency_us = kn['latency_us']
+        scripts = [w, lockf]
+        if 'validate' in step.get('twice', ''):
+            # a first validation (say, on arrival) with the very same objects; its
+            # verdict is not judged -- the second one below is
+            CLOCK.begin_call(step['validator'], [])
+            try:
+                F.flags['ts_threshold'] = step['thr']
+                F.run_auth_scripts(scripts, cache_in, **lim)
+            except BaseException:       # noqa
+                pass
+            finally:
+                CLOCK.end_call()
         CLOCK.begin_call(step['validator'], step['faults'])
         try:
             if step.get('via') == 'additional' and not step.get('suffix'):
@@ -437,7 +464,7 @@ def execute(plan, run):
             else:
                 F.flags['ts_threshold'] = step['thr']
                 try:
-                    r = F.run_auth_scripts([w, lockf], cache_in, **lim)
+                    r = F.run_auth_scripts(scripts, cache_in, **lim)
                 except BaseException as e:      # noqa
                     run.aux_auth_raised += 1
                     r = 'raised_' + type(e).__name__
